@@ -298,11 +298,55 @@ def _uniform_and_linear(ctx, cls, p):
     return not nf.symbols(v)  # a constant (np.ones_like(level) has generic element 1)
 
 
+_SELECTORS = ("numpy.flatnonzero", "numpy.nonzero", "numpy.argwhere", "numpy.where")
+
+
+def _selection_iter(it, v):
+    """name of the selecting routine if the loop iterable is the (possibly indexed / converted) result of one, else ''"""
+    seen = 0
+    while v is not None and seen < 6:
+        seen += 1
+        q = getattr(v, "qual", None)
+        if isinstance(q, str):
+            for s_ in _SELECTORS:
+                if q == s_ or q.startswith(s_ + "["):
+                    a = getattr(v, "args", None) or {}
+                    if s_ == "numpy.where" and len([k for k in a if k != "of"]) > 1 and not q.startswith(s_ + "["):
+                        return ""  # three-argument where is an element-wise choice, not a selection
+                    return s_
+            v = (getattr(v, "args", None) or {}).get("of")
+            continue
+        try:
+            txt = nf.show(it.to_nf(v), 400)
+        except Exception:
+            return ""
+        for s_ in _SELECTORS[:3]:
+            if s_ + "(" in txt:
+                return s_
+        return ""
+    return ""
+
+
 def _step(ctx, cls):
     it, f, parts = sim_step(ctx, cls)
     parts = list(parts)
     out = []
     for p, sol in parts:
+        # the time loop visits every step: a loop over a data-dependent *selection* of the step indices (np.flatnonzero,
+        # np.nonzero, one-argument np.where, np.argwhere of a test on the data) leaves the levels it skips unwritten - or
+        # holding whatever the array was created with - and the next visited step starts from such a level
+        sel = [e for e in p.events if e.kind == "for_iter" and not e.data.get("comprehension") and _selection_iter(it, e.data.get("iter"))]
+        if sel and sol:
+            key = (cls, "selection", sel[0].line)
+            seen = ctx.__dict__.setdefault("_unsolved_seen", set())
+            if key not in seen:
+                seen.add(key)
+                ctx.bad(
+                    f"{ctx.prop}-s", RES + f"{cls}.simulate:time loop over a selection of steps", f"{f.file}:{sel[0].line}",
+                    "the time loop visits every step i -> i+1 (a skipped step is admissible only as an explicit copy of the previous level under an exact zero-increment test inside the loop); here the loop runs over a data-dependent selection of the step indices, so a level that is not selected is never written",
+                    signature="steps selected by " + _selection_iter(it, sel[0].data.get("iter")),
+                )
+            continue
         if len(sol) == 0 and any(e.kind == "for_iter" and not e.data.get("comprehension") for e in p.events):
             _unsolved_step(ctx, it, f, cls, p)
             continue
